@@ -3,6 +3,7 @@
 
      readmany  <hex|-> <sched a,b,c|->   successive ReadPDU calls: observations joined by " | "
      readone   <hex|-> <sched a,b,c|->   one ReadPDU call
+     marshal   <id> <fields>              Marshal of the value: ok <hex> | err | panic
      remarshal <hex>                      ReadPDU on the frame, then Marshal of the decoded value: ok <hex> | err | panic | not-decoded
 
    Observation of one call:  ok <id> <consumed> <fields> | decode-err <id> <seq> <consumed> | unknown-id <c> | bad-len <c>
@@ -61,10 +62,50 @@ let show_obs (o, c) =
   | OPanic -> Printf.sprintf "panic %d" c
   | OFuel -> Printf.sprintf "fuel %d" c
 
+(* ---- parsing the canonical field text back into a value (op marshal) *)
+let z_of_int i : z = if i = 0 then Z0 else if i > 0 then Zpos (pos_of_int i) else Zneg (pos_of_int (- i))
+let ni s = n_of_int (int_of_string s)
+let split c s = if s = "" then [] else String.split_on_char c s
+let parse_addr s = match String.split_on_char ',' s with
+  | [t; n; h] -> { a_ton = ni t; a_npi = ni n; a_no = bytes_of_hex h }
+  | _ -> failwith "addr"
+let parse_kvs s = List.map (fun e -> match String.split_on_char '=' e with [k; v] -> (ni k, bytes_of_hex v) | _ -> failwith "kv") (split '+' s)
+let parse_field f =
+  let k = String.sub f 0 1 and v = String.sub f 2 (String.length f - 2) in
+  match k with
+  | "H" -> (match String.split_on_char ',' v with
+            | [l; i; st; sq] -> VHeader { h_len = ni l; h_id = ni i; h_status = ni st; h_seq = z_of_int (int_of_string sq) }
+            | _ -> failwith "H")
+  | "S" -> VStr (bytes_of_hex v)
+  | "B" -> VU8 (ni v)
+  | "b" -> VBool (v = "1")
+  | "E" -> (match String.split_on_char ',' v with
+            | [m; t; u; r] -> VEsm { e_mode = ni m; e_type = ni t; e_udhi = (u = "1"); e_reply = (r = "1") } | _ -> failwith "E")
+  | "R" -> (match String.split_on_char ',' v with
+            | [m; sm; i; r] -> VRegDel { r_mc = ni m; r_sme = ni sm; r_inter = (i = "1"); r_rsv = ni r } | _ -> failwith "R")
+  | "A" -> VAddr (parse_addr v)
+  | "D" -> (match String.split_on_char '|' v with
+            | [a; d] -> VDests (List.map parse_addr (split '+' a), List.map bytes_of_hex (split '+' d)) | _ -> failwith "D")
+  | "U" -> VUnsucc (List.map (fun e -> match String.split_on_char ',' e with
+                                       | [t; n; h; c] -> ({ a_ton = ni t; a_npi = ni n; a_no = bytes_of_hex h }, ni c) | _ -> failwith "U") (split '+' v))
+  | "M" -> (match String.split_on_char ',' v with
+            | [df; dc; u; m] ->
+              let udh = if u = "-" then None else if u = "~" then Some [] else Some (parse_kvs u) in
+              VShort { sm_dflt = ni df; sm_dc = ni dc; sm_udh = udh; sm_msg = bytes_of_hex m }
+            | _ -> failwith "M")
+  | "T" -> VTags (if v = "-" then [] else parse_kvs v)
+  | "X" -> VSkipped (ni v)
+  | _ -> failwith "field"
+
 let run line =
   match String.split_on_char ' ' (String.trim line) with
   | ["readmany"; h; s] -> String.concat " | " (List.map show_obs (run_many (bytes_of_hex h) (sched_of s)))
   | ["readone"; h; s] -> show_obs (run_read (bytes_of_hex h) (sched_of s))
+  | ["marshal"; id; fs] ->
+    (match marshal (lay (ni id)) (List.map parse_field (String.split_on_char ';' fs)) with
+     | Ok f -> "ok " ^ hex f
+     | Err _ -> "err"
+     | Panic -> "panic")
   | ["remarshal"; h] ->
     let data = bytes_of_hex h in
     (match run_read data [nat_of_int (List.length data + 1)] with
